@@ -16,61 +16,61 @@ NA = {
 
 CHECKS = {
     "C18": dict(
-        text="Seeded search over operation histories of the modal analysis: evaluate(k, ncv) with the ARPACK start vector drawn from the run seed (the shipped default is OS entropy), extract(n, inplace), re-evaluate after in-place extraction, eigen-solver faults (ArpackNoConvergence / RuntimeError must propagate), a twin world on a rigidly moved mesh; over element families, densities, elastic constants, boundary dictionaries (none, clamped, partial, point sets), stiffness multipliers, mixed containers. Oracles: operators handed to the solver equal independently assembled K[dof1,dof1] / M[dof1,dof1]; every returned pair satisfies the eigen equation; returned eigenvalues lie in the dense spectrum; spectra agree across start vectors and under rigid motion; mode shapes are the eigenvector scattered to the free unknowns with frequency sqrt(lambda)/2pi. Sampling, not proof. One open known finding (singular constrained stiffness). Added since: 1-2 bodies with/without multipliers, density changed between evaluations, x0=, set-wise spectrum comparison (Lanczos may miss copies of repeated eigenvalues).",
+        text="Seeded search over operation histories of the modal analysis: evaluate(k, ncv) with the ARPACK start vector drawn from the run seed (the shipped default is OS entropy), extract(n, inplace), re-evaluate after in-place extraction, eigen-solver faults (ArpackNoConvergence / RuntimeError must propagate), a twin world on a rigidly moved mesh; over element families, densities, elastic constants, boundary dictionaries (none, clamped, partial, point sets), stiffness multipliers, mixed containers. Oracles: operators handed to the solver equal independently assembled K[dof1,dof1] / M[dof1,dof1]; every returned pair satisfies the eigen equation; returned eigenvalues lie in the dense spectrum; spectra agree across start vectors and under rigid motion; mode shapes are the eigenvector scattered to the free unknowns with frequency sqrt(lambda)/2pi. Sampling, not proof. One open known finding (singular constrained stiffness). Added since: 1-2 bodies with/without multipliers, density changed between evaluations, x0=, set-wise spectrum comparison (Lanczos may miss copies of repeated eigenvalues). Rounds 5-9: boundary dictionary changed (in place / replaced) between evaluations, zero-density stiffness-only items, Taylor-Hood (tri6 / tet10) mixed containers, renumbered meshes, unused points per field. Second open known finding (rank-deficient mass of linear simplex cells).",
         note="Trusted: scipy.linalg dense eigensolver and SVD as reference, numpy, the reference mass assembler. Real: FreeVibration, SolidBody.matrix/mass, dof.partition, ARPACK + SuperLU. Simulated: start vector, solver faults, operation history. The shift is fixed at 0 (evaluate(sigma=...) raises TypeError - observation).",
         technique="deterministic simulation: seeded random start vectors of a randomised eigen-solver, operation histories on shared mutable field state, solver fault injection, rigid-motion twin",
         ref="DESIGN.md section 7 (C18)",
     ),
     "C10": dict(
-        text="Seeded search over load histories with twin worlds: (1) the stateful condensed nearly-incompressible body vs the explicit (u,p,J) formulation with cell-wise constant duals (3D, plane strain, axisymmetric; distorted meshes; bulk/shear 5..5000; exact and inexact solves) compared at every converged substep in u and at the settled end state in p and J, plus a restart that drops the condensed state; (2) the uniform-grid fast path as a flipped knob: same history with uniform=True/False, assembled vectors/matrices compared at identical iterates and all converged states compared. Sampled-only twins at the reached states: plane strain vs unit-thickness slab (forces and stiffness), axisymmetric forces vs central differences of the 2 pi R weighted energy. Sampling, not proof; convergence of the axisymmetric model to a revolved 3D model is not attempted. Added since: body re-created on the converged field, matrix after evaluate.*(field), Circle meshes, an unrelated FieldDual with an explicit option created earlier in the process, quad8/hex20 bodies.",
+        text="Seeded search over load histories with twin worlds: (1) the stateful condensed nearly-incompressible body vs the explicit (u,p,J) formulation with cell-wise constant duals (3D, plane strain, axisymmetric; distorted meshes; bulk/shear 5..5000; exact and inexact solves) compared at every converged substep in u and at the settled end state in p and J, plus a restart that drops the condensed state; (2) the uniform-grid fast path as a flipped knob: same history with uniform=True/False, assembled vectors/matrices compared at identical iterates and all converged states compared. Sampled-only twins at the reached states: plane strain vs unit-thickness slab (forces and stiffness), axisymmetric forces vs central differences of the 2 pi R weighted energy. Sampling, not proof; convergence of the axisymmetric model to a revolved 3D model is not attempted. Added since: body re-created on the converged field, matrix after evaluate.*(field), Circle meshes, an unrelated FieldDual with an explicit option created earlier in the process, quad8/hex20 bodies. Rounds 5-9: one axisymmetric stress array used for several forms, dirty out= kinematics and overwritten handed-out kinematics arrays, a second model of the same shape alive in the process, rolled / renumbered cell numbering in the uniform-grid comparison.",
         note="Trusted: numpy/scipy, converged-state tolerance 2e-5 relative scaled with the Newton tolerance. Real: both formulations, regions, fields, assembly, Newton. Simulated: the twin histories, restart (state loss), solver inexactness, the uniform knob.",
         technique="deterministic simulation with twin worlds (refinement between condensed/explicit and fast-path/general formulations along identical histories), restart with state loss, inexact-solver faults",
         ref="DESIGN.md section 7 (C10)",
     ),
     "C09": dict(
-        text="Seeded search over job histories of homogeneous problems: displacement patch tests (affine map on the whole boundary) and the uniaxial / biaxial load cases on every generated element family (hex 8/20/27, quad 4/8/9, tri 3/6, tet 4/10), mesh densities, interior distortion (curved edges in 2D), 3D and plane strain, nine hyperelastic material variants incl. the nearly-incompressible body, seeded ramp subdivisions (uniform, non-uniform, repeated, cyclic, load-unload), twin jobs with another subdivision, exact or inexact (1e-12..1e-3) linear solves. At every converged substep the displacement field is compared with the affine map, F with uniformity, job.x with the ramp, job.y with analytic P11*A0 from independently coded energy functions; recorded history must stay immutable. Sampling, not proof. Added since: load-case axis/axes, material curves over stretches 0.35..3, clamp released on the same Step object, CharacteristicCurve(items=), separate top-level x0 container.",
+        text="Seeded search over job histories of homogeneous problems: displacement patch tests (affine map on the whole boundary) and the uniaxial / biaxial load cases on every generated element family (hex 8/20/27, quad 4/8/9, tri 3/6, tet 4/10), mesh densities, interior distortion (curved edges in 2D), 3D and plane strain, nine hyperelastic material variants incl. the nearly-incompressible body, seeded ramp subdivisions (uniform, non-uniform, repeated, cyclic, load-unload), twin jobs with another subdivision, exact or inexact (1e-12..1e-3) linear solves. At every converged substep the displacement field is compared with the affine map, F with uniformity, job.x with the ramp, job.y with analytic P11*A0 from independently coded energy functions; recorded history must stay immutable. Sampling, not proof. Added since: load-case axis/axes, material curves over stretches 0.35..3, clamp released on the same Step object, CharacteristicCurve(items=), separate top-level x0 container. Rounds 5-9: job paused by the user's callback and evaluated again, earlier post-processing of another model in the process (prelude), patch boundaries created with a scalar and ramped from a (row- or column-major) table, ramp tables digested before / after the job.",
         note="Trusted: the analytic model in fesim/refmodel.py (energies coded from textbook forms, stresses by central differences of the energy, lateral stretch by bracketing root search), numpy/scipy. Real: Job/CharacteristicCurve/Step/Newton/regions/elements/materials. Simulated: solver inexactness, ramp subdivision histories. Tolerances are converged-state tolerances scaled with the Newton tolerance.",
         technique="deterministic simulation of load histories (ramp subdivisions, inexact solver faults, twin runs) against an analytic homogeneous-solution reference model",
         ref="DESIGN.md section 7 (C09)",
     ),
     "C03": dict(
-        text="Seeded search over call histories of every constitutive object that constructs offline (hand-coded Neo-Hooke family, volumetric, linear-elastic large-strain, Ogden-Roxburgh hand-coded and tensortrax, small-strain plasticity, finite-strain viscoelasticity, 14 tensortrax hyperelastic models, composite, NearlyIncompressible and ThreeFieldVariation wrappers): a material-point machine drives trial(F) / commit / reject sequences along monotone, cyclic and random strain paths incl. rejected excursions; the same monitors sit between body and material inside FE job histories. At every call: elasticity blocks (all six for mixed formulations) vs central differences of the stress at the same committed state (kink rule, max-history band), stress vs central differences of the energy where exposed, inputs (committed state variables!) byte-identical afterwards, repeated call idempotent, dirty reused out= buffers without influence. Sampling, not proof. jax models are not exercised in the quick tier. Added since: NaN-dirty buffers, in-place updated input arrays with the elasticity requested first at a new state (compared with a fresh object), MaterialAD total/updated Lagrange, MORPH (open known finding: tangent inconsistent at stored states), linear-elastic variants, jax models (1 % quick / 20 % thorough).",
+        text="Seeded search over call histories of every constitutive object that constructs offline (hand-coded Neo-Hooke family, volumetric, linear-elastic large-strain, Ogden-Roxburgh hand-coded and tensortrax, small-strain plasticity, finite-strain viscoelasticity, 14 tensortrax hyperelastic models, composite, NearlyIncompressible and ThreeFieldVariation wrappers): a material-point machine drives trial(F) / commit / reject sequences along monotone, cyclic and random strain paths incl. rejected excursions; the same monitors sit between body and material inside FE job histories. At every call: elasticity blocks (all six for mixed formulations) vs central differences of the stress at the same committed state (kink rule, max-history band), stress vs central differences of the energy where exposed, inputs (committed state variables!) byte-identical afterwards, repeated call idempotent, dirty reused out= buffers without influence. Sampling, not proof. jax models are not exercised in the quick tier. Added since: NaN-dirty buffers, in-place updated input arrays with the elasticity requested first at a new state (compared with a fresh object), MaterialAD total/updated Lagrange, MORPH (open known finding: tangent inconsistent at stored states), linear-elastic variants, jax models (1 % quick / 20 % thorough). Rounds 5-9: poisoned (raising / NaN) calls between operations, mixed wrappers around stateful inner materials, heterogeneous batches (loading and unloading points in one call), parameter attributes re-assigned between operations, switch-at-state kink rule.",
         note="Trusted: FD oracle at 2e-6 relative (calibrated), numpy. Real: felupe.constitution, tensortrax. Simulated: the call history and buffer reuse protocol; FE runtime in job mode. For stateless models the derivative clause is input sampling (stated in evidence).",
         technique="deterministic simulation of constitutive call histories (trial/commit/reject, buffer reuse) with finite-difference and byte-digest monitors at every seam call",
         ref="DESIGN.md section 7 (C03)",
     ),
     "C01": dict(
-        text="Seeded search over Newton histories of every item kind (solid bodies on 3D / plane-strain / axisymmetric / mixed fields, nearly-incompressible body, follower pressure, Cauchy-stress load, multi-point constraint and contact, point / body loads, form items; hyperelastic and history-dependent materials). At seeded iterations the exact K and -f Newton summed (multiplier, resize, link and cache protocol included) are taken at the solve= seam and K.d is compared with central differences of fun_items on cold forks at x +- h d (two step sizes; kink rule on the one-sided difference gap; step-size consistency rule), plus cache transparency (live == cold fork), symmetry of conservative items, the settled-state tangent of the condensed body, and the parallel knob under a simulated pool. Sampling, not proof. Added since: call-order (matrix first on a cold item incl. keyword arguments; matrix at a new state without a vector call), repeatability of felupe's own fun_items/jac_items at one state, and an independent statement of what Newton sums (sum of multiplier x item contribution) as reference.",
+        text="Seeded search over Newton histories of every item kind (solid bodies on 3D / plane-strain / axisymmetric / mixed fields, nearly-incompressible body, follower pressure, Cauchy-stress load, multi-point constraint and contact, point / body loads, form items; hyperelastic and history-dependent materials). At seeded iterations the exact K and -f Newton summed (multiplier, resize, link and cache protocol included) are taken at the solve= seam and K.d is compared with central differences of fun_items on cold forks at x +- h d (two step sizes; kink rule on the one-sided difference gap; step-size consistency rule), plus cache transparency (live == cold fork), symmetry of conservative items, the settled-state tangent of the condensed body, and the parallel knob under a simulated pool. Sampling, not proof. Added since: call-order (matrix first on a cold item incl. keyword arguments; matrix at a new state without a vector call), repeatability of felupe's own fun_items/jac_items at one state, and an independent statement of what Newton sums (sum of multiplier x item contribution) as reference. Rounds 5-9: switched-off items (multiplier 0.0), negative point indices of multi-point items on mixed containers, axisymmetric ring loads, vector-valued boundary ramps, renumbered / rolled meshes, process prelude, switch-at-state kink rule (neutral loading after plastic flow).",
         note="Trusted: finite-difference oracle with tolerance 2e-6 relative (calibrated 3 orders above the unchanged tree), fork builder, numpy/scipy. Real: all items, materials, assembly, Newton. Simulated: solver layer (inexact/scaled/flipped updates move the iterates to unusual states), einsumt pool.",
         technique="deterministic simulation of Newton histories; finite-difference refinement check on cold forks at the states and through the cache protocol the history produces",
         ref="DESIGN.md section 7 (C01)",
     ),
     "C17": dict(
-        text="Seeded operation sequences over a shared array pool: every tensor routine with operands of dimension 1..3 and broadcast batch axes, out in {None, fresh, dirty buffer left by an earlier operation}, parallel in {False, True} under a simulated einsumt pool (size 1..33, seeded job order, failing job), sym / determinant / full_output / mode flags. Each variant must equal the plain call, the plain call must equal numpy.linalg per batch item, operands must be byte-identical afterwards, a failing pool job must raise. Sampling, not proof. Added since: non-symmetric eig/eigvals, linsteps/identity/ravel variants.",
+        text="Seeded operation sequences over a shared array pool: every tensor routine with operands of dimension 1..3 and broadcast batch axes, out in {None, fresh, dirty buffer left by an earlier operation}, parallel in {False, True} under a simulated einsumt pool (size 1..33, seeded job order, failing job), sym / determinant / full_output / mode flags. Each variant must equal the plain call, the plain call must equal numpy.linalg per batch item, operands must be byte-identical afterwards, a failing pool job must raise. Sampling, not proof. Added since: non-symmetric eig/eigvals, linsteps/identity/ravel variants. Rounds 5-9: returned arrays overwritten by the caller before the call is repeated, repeated rotation angles, the Seth-Hill strain routine (C= / field / evaluate.*, tensor / principal values / Voigt), strided and Fortran-ordered out= buffers.",
         note="Trusted: numpy.linalg as definition. Real: felupe.math, einsumt chunking. Simulated: pool, buffer-reuse history. The 'equals its definition' clause for the plain variant is input sampling only (stated in evidence).",
         technique="deterministic simulation: seeded operation/buffer-reuse histories under a simulated thread pool with worker faults, reference = numpy.linalg",
         ref="DESIGN.md section 7 (C17)",
     ),
     "C02": dict(
-        text="Seeded search over schedules: (a) IntegralForm (Cartesian, plane-strain, axisymmetric incl. hoop terms, mixed block modes 1/2/3, absent blocks, uniform-grid broadcast, out= reuse with dirty buffers, values= pass-through) with parallel=True under a simulated einsumt pool (size 1..33 as a knob, seeded job order, failing job); (b) Form(...) weak forms (value/gradient/hessian spaces, linear/bilinear/mixed, sym flag) with parallel=True under a simulated thread scheduler (real threads parked and released one at a time at sys.monitoring LINE/STORE_SUBSCR yield points; fifo, lifo, round-robin and seeded random schedules; joins only wait for the joined thread) and a failing worker thread. Every result is compared with an independent naive assembler, with parallel=False and with the equivalent array form; a failing worker must surface as an exception. Sampling of schedules, not proof; races inside NumPy C code are not explored. Added since: forms re-assembled after an in-place region reload, forms created one after the other on shared field objects, out= lists from a fully populated form, absent blocks on axisymmetric mixed fields, mixed fields on quadratic families. Open known finding: full block layout on axisymmetric mixed fields raises.",
+        text="Seeded search over schedules: (a) IntegralForm (Cartesian, plane-strain, axisymmetric incl. hoop terms, mixed block modes 1/2/3, absent blocks, uniform-grid broadcast, out= reuse with dirty buffers, values= pass-through) with parallel=True under a simulated einsumt pool (size 1..33 as a knob, seeded job order, failing job); (b) Form(...) weak forms (value/gradient/hessian spaces, linear/bilinear/mixed, sym flag) with parallel=True under a simulated thread scheduler (real threads parked and released one at a time at sys.monitoring LINE/STORE_SUBSCR yield points; fifo, lifo, round-robin and seeded random schedules; joins only wait for the joined thread) and a failing worker thread. Every result is compared with an independent naive assembler, with parallel=False and with the equivalent array form; a failing worker must surface as an exception. Sampling of schedules, not proof; races inside NumPy C code are not explored. Added since: forms re-assembled after an in-place region reload, forms created one after the other on shared field objects, out= lists from a fully populated form, absent blocks on axisymmetric mixed fields, mixed fields on quadratic families. Open known finding: full block layout on axisymmetric mixed fields raises. Rounds 5-9: the same form assembled again after a worker failure, abort-class (BaseException) worker faults, geometry updated in place with a re-created leading field and kept dual fields, thread seam independent of the names of the worker functions.",
         note="Trusted: numpy einsum, the generalised-basis reference assembler in fesim/refmodel.py (region.h/dhdX/dV arrays are inputs to both sides), scipy.sparse. Real: all of felupe.assembly, einsumt chunking. Simulated: thread scheduling, einsumt pool.",
         technique="deterministic simulation: seeded thread-interleaving and pool-schedule search with worker fault injection, reference-model equality under every schedule",
         ref="DESIGN.md section 7 (C02)",
     ),
     "C07": dict(
-        text="Seeded search over simulated Newton/Job histories: generated problems (mesh family, distortion, field kind, material, items, boundary dictionary incl. dual-field boundaries, ramps, tol/maxiter, x0 continuation) run under a fault layer on the linear-solver seam (raise, NaN/Inf, zero/flipped/scaled/stalled update, inexact solve), on the material (raise/NaN), on the callback, and with skewed clocks. Every returned result is re-checked on a cold fork (independent residual, prescribed values from an independent boundary model), every linear solve against the independently sliced reduced system, every failure against no-commit and raise-not-return. Sampling, not proof. Added since: newtonrhapson called directly with its default fun/jac, tools.solve, partition-once / solve-three-times with input digests, points without cells, superposed bodies with multipliers.",
+        text="Seeded search over simulated Newton/Job histories: generated problems (mesh family, distortion, field kind, material, items, boundary dictionary incl. dual-field boundaries, ramps, tol/maxiter, x0 continuation) run under a fault layer on the linear-solver seam (raise, NaN/Inf, zero/flipped/scaled/stalled update, inexact solve), on the material (raise/NaN), on the callback, and with skewed clocks. Every returned result is re-checked on a cold fork (independent residual, prescribed values from an independent boundary model), every linear solve against the independently sliced reduced system, every failure against no-commit and raise-not-return. Sampling, not proof. Added since: newtonrhapson called directly with its default fun/jac, tools.solve, partition-once / solve-three-times with input digests, points without cells, superposed bodies with multipliers. Rounds 5-9: undocumented exceptions in fault-free runs are violations, unknowns selected by two ramped boundaries, multiplicity-independent reduced-system reference, switched-off items, vector-valued and column-major boundary values, ramp tables digested before / after the job.",
         note="Trusted: numpy/scipy (SuperLU) arithmetic, Boundary.dof index tables (C08 territory), the fork builder in fesim/world.py. Real code: all of felupe, SuperLU. Simulated: solver fault layer, clock, callbacks, material fault wrapper.",
         technique="deterministic simulation: seeded fault injection at the solver/material/callback/clock seams of the Newton runtime, cold-fork reference re-assembly",
         ref="DESIGN.md section 7 (C07)",
     ),
     "C15": dict(
-        text="Seeded search over multi-step load histories (monotone, cyclic, repeated, non-uniform ramps on boundaries and on load items; 1-2 steps x 1-6 substeps) with faults F1-F6 at seeded (step, substep, iteration), x0 continuation, restart from durable state only (optionally dropping the condensed p/J state) and refined-ramp twins. Oracles: a Newton-protocol reference model (ramp value per substep, start state, converged prefix, commit only at convergence and exactly to the trial state) and reference history models (running maximum of an independently coded energy, yield function, monotone equivalent plastic strain). Sampling, not proof. Added since: retry-after-failure (failed substep, then continuation on the same objects from the last converged state must reproduce the fault-free history), Step re-evaluated after its boundary dictionary changed, second step on an item subset.",
+        text="Seeded search over multi-step load histories (monotone, cyclic, repeated, non-uniform ramps on boundaries and on load items; 1-2 steps x 1-6 substeps) with faults F1-F6 at seeded (step, substep, iteration), x0 continuation, restart from durable state only (optionally dropping the condensed p/J state) and refined-ramp twins. Oracles: a Newton-protocol reference model (ramp value per substep, start state, converged prefix, commit only at convergence and exactly to the trial state) and reference history models (running maximum of an independently coded energy, yield function, monotone equivalent plastic strain). Sampling, not proof. Added since: retry-after-failure (failed substep, then continuation on the same objects from the last converged state must reproduce the fault-free history), Step re-evaluated after its boundary dictionary changed, second step on an item subset. Rounds 5-9: separate top-level x0 container (start state and x0 after the job), load items of the reference fork constructed at the ramp value instead of updated to it, axisymmetric and per-point (unsorted) point loads, per-field converged-state tolerance and a stability rule for path comparisons, ramp tables digested.",
         note="Trusted: numpy/scipy, region.dhdX/h arrays for the independent deformation gradient, fesim world builder. Real: felupe Step/Job/newtonrhapson/items/materials, SuperLU. Simulated: solver fault layer, callbacks, material fault wrapper, restart (process loss).",
         technique="deterministic simulation of load histories with fault injection, restart-from-durable-state and refinement twins against a Newton-protocol reference model",
         ref="DESIGN.md section 7 (C15)",
     ),
     "C20": dict(
-        text="Seeded search over job histories written to XDMF/HDF5 in a private scratch directory (any steps/substeps, default and custom point/cell data, early stop by solver/material/callback/data-callable faults, disk faults at the h5py.File seam: n-th create_dataset fails, close fails) plus mesh write/read round trips for all generated cell types x vtk/vtu/xdmf, merged container reads and tools.save. Oracle: a file model built from the history the job callback saw (frame count, order, times, bitwise displacement, per-cell means recomputed independently). Sampling, not proof. Added since: disk-full seam on builtins.open (short write then ENOSPC) for Mesh.write / save / the XDMF XML, exact array-name sets per frame, overriding a default key, a second default-only job in the same run, default-dim / cellblock / single-block merged reads, extra data in save.",
+        text="Seeded search over job histories written to XDMF/HDF5 in a private scratch directory (any steps/substeps, default and custom point/cell data, early stop by solver/material/callback/data-callable faults, disk faults at the h5py.File seam: n-th create_dataset fails, close fails) plus mesh write/read round trips for all generated cell types x vtk/vtu/xdmf, merged container reads and tools.save. Oracle: a file model built from the history the job callback saw (frame count, order, times, bitwise displacement, per-cell means recomputed independently). Sampling, not proof. Added since: disk-full seam on builtins.open (short write then ENOSPC) for Mesh.write / save / the XDMF XML, exact array-name sets per frame, overriding a default key, a second default-only job in the same run, default-dim / cellblock / single-block merged reads, extra data in save. Rounds 5-9: second job also after a failed job, mesh object history (copy / copy(points=) / update) and the save alias, empty data dictionaries, caller's dictionaries unchanged, save() with gradient= and the caller's projected tensors as point data.",
         note="Trusted: meshio readers, h5py/HDF5 (real file I/O), numpy eigh for the independent log-strain. Real: felupe Job/_write/Mesh.write/mesh.read/MeshContainer/save, meshio, HDF5. Simulated: h5py.File proxy for disk faults, solver fault layer, callbacks.",
         technique="deterministic simulation of job histories with disk/solver/callback fault injection, file model vs files re-read",
         ref="DESIGN.md section 7 (C20)",
